@@ -1454,16 +1454,13 @@ static void mi_segment_force_abandon(mi_segment_t* segment, mi_segments_tld_t* t
         // abandon the page if it is still in-use (this will free it if possible as well)
         mi_assert_internal(segment->used > 0);
         if (segment->used == segment->abandoned+1) {
-          // the last page..
-          bool freed = false;
-          if (segment->abandoned == 0) {
-            // it is the only page: the pending delayed frees can free it, and with it the segment, while
-            // `_mi_page_force_abandon` still inspects the page after it processed them.
-            // Process them here while `dont_free` keeps the segment alive.
-            _mi_page_use_delayed_free(page, MI_NEVER_DELAYED_FREE, false);
-            _mi_heap_delayed_free_all(mi_page_heap(page));
-            freed = (page->capacity == 0);
-          }
+          // the last page.. the pending delayed frees can free it, and with it the segment (or leave a segment
+          // with only abandoned pages that another thread can reclaim and free), while `_mi_page_force_abandon`
+          // still inspects the page after it processed them.
+          // Process them here while `dont_free` keeps the segment alive and owned by us.
+          _mi_page_use_delayed_free(page, MI_NEVER_DELAYED_FREE, false);
+          _mi_heap_delayed_free_all(mi_page_heap(page));
+          const bool freed = (page->capacity == 0);
           if (!freed) {
             // abandon and return as the segment will be abandoned after this
             // and we should no longer access it.
